@@ -17,7 +17,7 @@ Definition f64_f32_min : f64 := F64.of_f32 (F32.neg f32_max).
 (* fn checked_f32_sub(a, b) -> Option<f32> *)
 Definition checked_f32_sub (a b : f32) : option f32 :=
   let n := F64.sub (F64.of_f32 a) (F64.of_f32 b) in
-  if F64.gt n f64_f32_min && F64.lt n f64_f32_max then Some (F64.to_f32 n) else None.
+  if F64.le f64_f32_min n && F64.le n f64_f32_max then Some (F64.to_f32 n) else None.
 
 (* Rect::from_ltrb *)
 Definition from_ltrb (l t r b : f32) : option rect :=
@@ -83,3 +83,52 @@ Definition from_points_gen (seed_accum : bool) (ps : list pt) : option rect :=
 
 Definition from_points := from_points_gen true.
 Definition from_points_pinned := from_points_gen false.
+
+(* ---- derived operations of Rect (all return through from_ltrb) ------------------------- *)
+
+Definition rect_intersect (a b : rect) : option rect :=
+  from_ltrb (F32.max (rl a) (rl b)) (F32.max (rt a) (rt b)) (F32.min (rr a) (rr b)) (F32.min (rb a) (rb b)).
+
+Definition rect_is_empty (a : rect) : bool := F32.eq (rl a) (rr a) || F32.eq (rt a) (rb a).
+
+Definition rect_join (a b : rect) : option rect :=
+  if rect_is_empty b then Some a
+  else if rect_is_empty a then Some b
+  else from_ltrb (F32.min (rl a) (rl b)) (F32.min (rt a) (rt b)) (F32.max (rr a) (rr b)) (F32.max (rb a) (rb b)).
+
+Definition rect_inset (a : rect) (dx dy : f32) : option rect :=
+  from_ltrb (F32.add (rl a) dx) (F32.add (rt a) dy) (F32.sub (rr a) dx) (F32.sub (rb a) dy).
+Definition rect_outset (a : rect) (dx dy : f32) : option rect := rect_inset a (F32.neg dx) (F32.neg dy).
+
+Definition rect_width (a : rect) : f32 := F32.sub (rr a) (rl a).
+Definition rect_height (a : rect) : f32 := F32.sub (rb a) (rt a).
+
+(* NonZeroRect::from_ltrb *)
+Definition nz_from_ltrb (l t r b : f32) : option rect :=
+  if negb (F32.is_finite l && F32.is_finite t && F32.is_finite r && F32.is_finite b) then None
+  else if F32.lt l r && F32.lt t b then
+    match checked_f32_sub r l, checked_f32_sub b t with
+    | Some _, Some _ => Some (mkrect l t r b)
+    | _, _ => None
+    end
+  else None.
+Definition nz_from_xywh (x y w h : f32) : option rect := nz_from_ltrb x y (F32.add w x) (F32.add h y).
+
+(* Size::from_wh: both finite and > 0 *)
+Definition size_from_wh (w h : f32) : option (f32 * f32) :=
+  if F32.is_finite w && F32.gt w F32.zero && F32.is_finite h && F32.gt h F32.zero then Some (w, h) else None.
+
+(* i32::saturate_from(f32), saturate_floor / ceil / round *)
+Definition max_i32_fits : f32 := F32.of_bits 1325400063. (* 2147483520.0 *)
+Definition min_i32_fits : f32 := F32.neg max_i32_fits.
+Definition saturate_from (x : f32) : Z :=
+  let x := if F32.lt x max_i32_fits then x else max_i32_fits in
+  let x := if F32.gt x min_i32_fits then x else min_i32_fits in
+  F32.to_i32 x.
+Definition saturate_floor (x : f32) : Z := saturate_from (F32.floor x).
+Definition saturate_ceil (x : f32) : Z := saturate_from (F32.ceil x).
+(* as written in the source: floor(x) + 0.5, then the truncating cast *)
+Definition saturate_round (x : f32) : Z := saturate_from (F32.add (F32.floor x) F32.half).
+
+(* `v as u32` for an i32 value (two's complement reinterpretation) *)
+Definition i32_as_u32 (v : Z) : Z := v mod 4294967296.
